@@ -4,6 +4,8 @@ package props
 
 import (
 	"fmt"
+	"os"
+	"path/filepath"
 	"testing"
 
 	"pgregory.net/rapid"
@@ -71,8 +73,16 @@ func c01Labels(w *lsw.World, res *core.Result) {
 	add(o.Acks == 0, "no-ack")
 	add(o.AckErrors > 0, "ack-error")
 	add(w.Cfg.ViaServer, "via-server")
+	add(o.HookCommits > 0, "interleaved-commit")
+	add(o.HookLockHeld > 0, "interleaved-lock-held")
+	for _, ph := range lsw.Phases {
+		if w.PhasesFired[ph] > 0 {
+			res.Labels = append(res.Labels, "at:"+ph)
+		}
+	}
 	res.Labels = append(res.Labels, fmt.Sprintf("ps:%d", w.Cfg.PageSize))
-	res.Notes = map[string]int{"acks": o.Acks, "ack_errors": o.AckErrors, "commits": o.Commits, "app_skipped": o.AppSkipped}
+	res.Notes = map[string]int{"acks": o.Acks, "ack_errors": o.AckErrors, "commits": o.Commits, "app_skipped": o.AppSkipped,
+		"hook_fired": o.HookFired, "hook_late": o.HookLate, "hook_commits": o.HookCommits, "hook_lock_held": o.HookLockHeld}
 	for k, v := range o.LSErrors {
 		res.Notes["lserr:"+k] += v
 	}
@@ -101,7 +111,11 @@ func execC01(c lsw.Case) (res core.Result) {
 		}
 		ob := w.Obs
 		closeBeforeInit := o.K == "close" && !initialised
+		vStart := w.LastV
 		sr := w.LSStep(o)
+		if w.Obs.HookCommits > ob.HookCommits || w.Obs.HookLockHeld > ob.HookLockHeld {
+			nontrivial = true // an application transaction committed, or took the write lock, between two of litestream's own steps
+		}
 		if (o.K == "sync" || o.K == "syncwait" || o.K == "lsckpt") && sr.Err == nil {
 			initialised = true
 		}
@@ -115,6 +129,19 @@ func execC01(c lsw.Case) (res core.Result) {
 			nontrivial = true
 		}
 		w.Obs.WALRestartSinceAck = false
+		if w.OpCommits > 0 || w.OpLateCommits > 0 {
+			// Application transactions committed while this acknowledging call was running (interleaved cases only).
+			// The acknowledgement covers everything committed before the call started and may or may not cover what was
+			// committed during it: the restore must be one of the committed states of that window.
+			if m := c01CheckWindow(w, vStart); m != nil {
+				res.Violation = &core.Violation{Oracle: m.Oracle, Msg: fmt.Sprintf("after step %d (%s): %s", i, o, m.Msg)}
+				if closeBeforeInit {
+					res.Violation.Shapes = append(res.Violation.Shapes, "close-before-init")
+				}
+				return res
+			}
+			continue
+		}
 		if m := w.CheckR1(); m != nil {
 			res.Violation = &core.Violation{Oracle: m.Oracle, Msg: fmt.Sprintf("after step %d (%s): %s", i, o, m.Msg)}
 			if closeBeforeInit {
@@ -132,6 +159,182 @@ func execC01(c lsw.Case) (res core.Result) {
 		}
 	}
 	return res
+}
+
+// c01CheckWindow restores the latest state and requires a usable database whose logical state is a committed state
+// with version in [vStart, current].
+func c01CheckWindow(w *lsw.World, vStart int64) *lsw.Mismatch {
+	out := filepath.Join(w.Dir, "window.db")
+	defer func() {
+		os.Remove(out)
+		os.Remove(out + "-wal")
+		os.Remove(out + "-shm")
+	}()
+	if err := lsw.RestoreTo(w.Ctx(), w.ReplicaDir, out, 0, lsw.ZeroTime); err != nil {
+		return &lsw.Mismatch{Oracle: "r1-restore-error", Msg: fmt.Sprintf("restore failed after an acknowledged sync: %v", err)}
+	}
+	v, d, ic, err := lsw.InspectFile(w.Ctx(), out)
+	if err != nil || ic != "ok" {
+		return &lsw.Mismatch{Oracle: "r1-integrity", Msg: fmt.Sprintf("integrity_check: %q err=%v", ic, err)}
+	}
+	if v < vStart || v > w.LastV {
+		return &lsw.Mismatch{Oracle: "r1-window", Msg: fmt.Sprintf("restored version %d outside the window [%d,%d] of states committed before/while the acknowledged call ran", v, vStart, w.LastV)}
+	}
+	if want, ok := w.Ledger[v]; !ok || want != d {
+		return &lsw.Mismatch{Oracle: "r1-logical", Msg: fmt.Sprintf("restored version %d digest %s is not the committed state %q", v, d, want)}
+	}
+	return nil
+}
+
+// genNested draws the application ops executed inside one phase hook.
+func genNested(t *rapid.T, m *lsw.GenModel) []lsw.Op {
+	var ops []lsw.Op
+	switch rapid.IntRange(0, 9).Draw(t, "nestedKind") {
+	case 0, 1, 2:
+		// take (and keep) the write lock, when nobody holds it
+		if m.Writer == -1 && m.ConnOpen[0] && m.Tx[0] == 0 {
+			m.Tx[0], m.Writer = 2, 0
+			ops = append(ops, lsw.Op{K: "begin", C: 0})
+			if rapid.Bool().Draw(t, "writeInTx") {
+				ops = append(ops, m.AppOp(t))
+			}
+			return ops
+		}
+		fallthrough
+	default:
+		n := rapid.IntRange(1, 2).Draw(t, "nestedN")
+		for i := 0; i < n; i++ {
+			ops = append(ops, m.AppOp(t))
+		}
+	}
+	return ops
+}
+
+var c01Phases = map[string][]string{
+	"sync": {"verify", "sync_page_map", "sync_prepare_ltx", "write_ltx_from_wal", "write_ltx_from_db", "rename_ltx", "sync_complete", "checkpoint_if_needed",
+		"checkpoint_copy_before", "checkpoint_exec", "checkpoint_exec", "checkpoint_bump_seq", "checkpoint_bump_seq", "checkpoint_verify_restart",
+		"checkpoint_snapshot_boundary_lock", "checkpoint_snapshot_boundary"},
+	"lsckpt": {"checkpoint_lock", "checkpoint_copy_before", "sync_page_map", "rename_ltx", "checkpoint_exec", "checkpoint_exec", "checkpoint_exec",
+		"checkpoint_bump_seq", "checkpoint_bump_seq", "checkpoint_bump_seq", "checkpoint_verify_restart", "checkpoint_snapshot_boundary_lock", "checkpoint_snapshot_boundary"},
+	"snapshot": {"snapshot_encode"},
+	"close":    {"verify", "sync_page_map", "rename_ltx", "sync_complete", "close_release", "checkpoint_exec", "checkpoint_bump_seq"},
+}
+
+func genInterleave(t *rapid.T, m *lsw.GenModel, k string) []lsw.Op {
+	ph := c01Phases[k]
+	if k == "syncwait" {
+		ph = c01Phases["sync"]
+	}
+	if len(ph) == 0 {
+		return nil
+	}
+	var xs []lsw.Op
+	n := rapid.IntRange(1, 3).Draw(t, "entries")
+	for i := 0; i < n; i++ {
+		xs = append(xs, lsw.Op{K: "at", M: rapid.SampledFrom(ph).Draw(t, "phase"), N: rapid.SampledFrom([]int{1, 1, 1, 2, 3}).Draw(t, "occ"), X: genNested(t, m)})
+	}
+	return xs
+}
+
+var (
+	c01EarlyCkptPhases = []string{"checkpoint_lock", "checkpoint_read_wal_header", "checkpoint_copy_before", "sync_complete", "checkpoint_exec", "checkpoint_exec", "checkpoint_exec"}
+	c01LateCkptPhases  = []string{"checkpoint_bump_seq", "checkpoint_bump_seq", "checkpoint_verify_restart", "checkpoint_snapshot_boundary_lock", "checkpoint_snapshot_boundary", "sync_page_map", "rename_ltx"}
+)
+
+// genCkptEpisode draws a checkpoint episode: writes, a sync, then a litestream checkpoint (explicit, or the one a sync
+// decides on) during which the application commits before the checkpoint runs and/or holds the write lock at one of
+// the later steps, followed by more writes and an acknowledged sync.
+func genCkptEpisode(t *rapid.T, m *lsw.GenModel, cfg lsw.Config) []lsw.Op {
+	var ops []lsw.Op
+	ops = append(ops, m.CloseOutTx()...)
+	for i, n := 0, rapid.IntRange(1, 3).Draw(t, "pre"); i < n; i++ {
+		ops = append(ops, m.AppOp(t))
+	}
+	ops = append(ops, m.CloseOutTx()...)
+	ops = append(ops, lsw.Op{K: "sync"})
+	for i, n := 0, rapid.IntRange(0, 2).Draw(t, "mid"); i < n; i++ {
+		ops = append(ops, m.AppOp(t))
+	}
+	ops = append(ops, m.CloseOutTx()...)
+	var o lsw.Op
+	if rapid.IntRange(0, 3).Draw(t, "explicit") > 0 {
+		o = lsw.Op{K: "lsckpt", M: rapid.SampledFrom([]string{"TRUNCATE", "TRUNCATE", "RESTART", "FULL", "PASSIVE"}).Draw(t, "mode")}
+	} else {
+		o = lsw.Op{K: rapid.SampledFrom([]string{"sync", "syncwait"}).Draw(t, "viaSync")}
+	}
+	if rapid.IntRange(0, 9).Draw(t, "early") < 8 {
+		x := lsw.Op{K: "at", M: rapid.SampledFrom(c01EarlyCkptPhases).Draw(t, "earlyPhase"), N: 1}
+		for i, n := 0, rapid.IntRange(1, 2).Draw(t, "earlyN"); i < n; i++ {
+			x.X = append(x.X, m.AppOp(t))
+		}
+		x.X = append(x.X, m.CloseOutTx()...)
+		o.X = append(o.X, x)
+	}
+	if rapid.IntRange(0, 9).Draw(t, "late") < 8 && m.Writer == -1 && m.ConnOpen[0] && m.Tx[0] == 0 {
+		x := lsw.Op{K: "at", M: rapid.SampledFrom(c01LateCkptPhases).Draw(t, "latePhase"), N: 1, X: []lsw.Op{{K: "begin", C: 0}}}
+		m.Tx[0], m.Writer = 2, 0
+		if rapid.Bool().Draw(t, "lateWrite") {
+			x.X = append(x.X, m.AppOp(t))
+		}
+		o.X = append(o.X, x)
+	}
+	ops = append(ops, o)
+	ops = append(ops, m.CloseOutTx()...)
+	for i, n := 0, rapid.IntRange(0, 2).Draw(t, "post"); i < n; i++ {
+		ops = append(ops, m.AppOp(t))
+	}
+	ops = append(ops, m.CloseOutTx()...)
+	ops = append(ops, lsw.Op{K: "syncwait"})
+	return ops
+}
+
+// genC01I draws histories whose litestream ops carry interleaved application activity at harness-chosen pipeline points.
+func genC01I(t *rapid.T) lsw.Case {
+	cfg := lsw.GenConfig(t, core.Thorough())
+	if rapid.Bool().Draw(t, "smallThresholds") {
+		cfg.MinCkpt = rapid.SampledFrom([]int{1, 2, 5}).Draw(t, "minckI")
+		cfg.TruncN = rapid.SampledFrom([]int{0, 3, 10}).Draw(t, "truncI")
+	}
+	maxSteps := 30
+	if core.Thorough() {
+		maxSteps = 60
+	}
+	n := rapid.IntRange(6, maxSteps).Draw(t, "steps")
+	m := lsw.NewGenModel(cfg)
+	var ops []lsw.Op
+	for i := 0; i < n; i++ {
+		w := rapid.IntRange(0, 11).Draw(t, "which")
+		if w < 5 {
+			ops = append(ops, m.AppOp(t))
+			continue
+		}
+		if w >= 10 {
+			ops = append(ops, genCkptEpisode(t, m, cfg)...)
+			continue
+		}
+		o := genLSOpC01(t, cfg)
+		if rapid.IntRange(0, 9).Draw(t, "interleave") < 7 {
+			o.X = genInterleave(t, m, o.K)
+		}
+		ops = append(ops, o)
+	}
+	ops = append(ops, m.CloseOutTx()...)
+	if rapid.IntRange(0, 3).Draw(t, "endClose") == 0 {
+		o := lsw.Op{K: "close"}
+		if rapid.Bool().Draw(t, "interleaveClose") {
+			o.X = genInterleave(t, m, "close")
+			ops = append(ops, o)
+			return lsw.Case{Cfg: cfg, Ops: ops}
+		}
+		ops = append(ops, o)
+	} else {
+		ops = append(ops, lsw.Op{K: "syncwait"})
+	}
+	return lsw.Case{Cfg: cfg, Ops: ops}
+}
+
+func TestProp_C01I(t *testing.T) {
+	core.Check(t, "C01", genC01I, execC01)
 }
 
 func TestProp_C01(t *testing.T) {
